@@ -234,7 +234,10 @@ func (s *Session) write(b []byte) error {
 func inputBatch(op *Op, k int, cancel bool) arrow.RecordBatch {
 	var b arrow.RecordBatch
 	if op.StreamKind == "exchange" {
-		if cancel {
+		if cancel && op.BadCast {
+			// same (non-castable) schema as the rest of this input stream
+			b = hx.StringBatchN([]string{"x"}, nil)
+		} else if cancel {
 			b = hx.Int64Batch("x", nil, op.Cast)
 		} else if op.BadCast {
 			b = hx.StringBatch([]string{"x"}, []string{"not-a-number"})
